@@ -58,6 +58,7 @@ type Env struct {
 	infra  string
 	limit  *time.Timer
 	cleanup []func()
+	panics  []string
 }
 
 // OnCleanup registers a function that runs after the workload returned.
